@@ -226,6 +226,16 @@ func init() {
 			op["query"] = (url.Values{"resource": []string{"acct:" + parts[0] + "@" + parts[1]}}).Encode()
 			op["domain"] = parts[1]
 		}
+		/* the JRD document of the (single) route, decoded, for the model */
+		for _, rt := range op["world"].([]any) {
+			resp := rt.(map[string]any)["resp"].(string)
+			if i := strings.Index(resp, "\r\n\r\n"); i >= 0 && strings.HasPrefix(resp, "HTTP/1.0 200") {
+				var doc map[string]any
+				if jsonUnmarshalString(resp[i+4:], &doc) == nil && doc != nil {
+					op["jrd"] = tree(doc)
+				}
+			}
+		}
 		link, err := client.ResolveWebfinger(handle)
 		log := s.takeLog()
 		op["canaryhits"] = s.canaryHits()
